@@ -1481,3 +1481,84 @@ pub fn xzblk_index_two_byte_count_1() {
 pub fn xzblk_index_two_byte_count_129() {
     index_two_byte_count::<1, 1>()
 }
+
+
+/// read_block on a block with EMPTY content (LZMA2 payload = the end byte alone) and a check
+/// field: the check is still read and verified (CRC of the empty string), the record counts it.
+fn read_block_empty<const CHECK: u8>() {
+    let mut t = Tape::<16>::new();
+    let chk: [u8; 8] = t.bytes::<8>();
+    BH_PACKED.store(u64::MAX, Ordering::Relaxed);
+    BH_UNPACKED.store(u64::MAX, Ordering::Relaxed);
+    BH_PRESENT.store(0, Ordering::Relaxed);
+    let mut f = [0u8; 40];
+    f[0] = 3;
+    f[1] = 0x00;
+    f[2] = 0x21;
+    f[3] = 0x01;
+    f[4] = 0x16;
+    let c = ref_crc32(&f[0..12]).to_le_bytes();
+    f[12] = c[0];
+    f[13] = c[1];
+    f[14] = c[2];
+    f[15] = c[3];
+    f[16] = 0; // LZMA2 end byte: empty content
+    // 17 bytes so far -> 3 bytes of block padding
+    let check_len = if CHECK == 1 { 4 } else { 8 };
+    let mut k = 0;
+    while k < check_len {
+        f[20 + k] = chk[k];
+        k += 1;
+    }
+    let total = 20 + check_len;
+    f[total] = 0xEE;
+    let mut rd = ArrReader::<40>::new(f, total + 1);
+    let mut sink = RecSink::<4>::new();
+    let mut records: Vec<Record> = Vec::with_capacity(2);
+    let (ok, counted) = {
+        let mut ci = util::CountBufRead::new(&mut rd);
+        let hb = ci.read_u8();
+        forget(hb);
+        let r = read_block(&mut ci, &mut sink, if CHECK == 1 { CheckMethod::Crc32 } else { CheckMethod::Crc64 }, &mut records, 3);
+        let ok = r.is_ok();
+        forget(r);
+        (ok, ci.count())
+    };
+    let want = if CHECK == 1 {
+        u32::from_le_bytes([chk[0], chk[1], chk[2], chk[3]]) == 0
+    } else {
+        u64::from_le_bytes(chk) == 0
+    };
+    vassert!(ok == want, "read_block: an empty block is accepted iff its check field is the check of the empty string");
+    if ok {
+        vassert!(sink.len == 0, "read_block: an empty block writes nothing");
+        vassert!(records.len() == 1 && records[0].unpadded_size as u64 == (17 + check_len) as u64 && records[0].unpacked_size as u64 == 0, "read_block: index record = unpadded block size (header + data + check, without padding) and uncompressed size");
+        vassert!(counted == total && rd.pos == total, "read_block: consumes header, payload, padding and check, nothing more");
+    }
+    vcover!(ok, "empty_block_ok");
+    forget(records);
+}
+
+//@ harness props=C03,C06,C07,C18 tier=quick unwind=6 unwindset=update_table:300,ref_crc32.0:14,ref_crc32.1:300,default_read_exact:10,decompress:4,scripted_block_header:5,read_block_empty:10,spec_fill:8200 mem_gb=12 timeout=900 native=no
+//@ bound: read_block with the header parser replaced by its contract: 12-byte header, EMPTY content (LZMA2 end byte only), CRC32 check field symbolic
+#[cfg_attr(kani, kani::proof)]
+#[cfg_attr(kani, kani::stub(std::fmt::format, crate::verif_common::stub_format))]
+#[cfg_attr(kani, kani::stub(std::io::Error::is_interrupted, crate::verif_common::stub_not_interrupted))]
+#[cfg_attr(kani, kani::stub(crate::decode::xz::read_block_header, crate::decode::xz::verif_h::scripted_block_header))]
+#[cfg_attr(kani, kani::stub(crate::decode::lzma::DecoderState::new, crate::decode::stream::verif_h::new_scripted_lit))]
+#[cfg_attr(kani, kani::stub(crate::decode::lzbuffer::LzAccumBuffer::from_stream, crate::decode::lzbuffer::verif_h::accum_from_stream_with_capacity))]
+pub fn xzblk_read_block_empty_crc32() {
+    read_block_empty::<1>()
+}
+
+//@ harness props=C03,C06,C07,C18 tier=quick unwind=6 unwindset=update_table:300,ref_crc32.0:14,ref_crc32.1:300,default_read_exact:10,decompress:4,scripted_block_header:5,read_block_empty:10,spec_fill:8200 mem_gb=12 timeout=900 native=no
+//@ bound: read_block with the header parser replaced by its contract: 12-byte header, EMPTY content (LZMA2 end byte only), CRC64 check field symbolic
+#[cfg_attr(kani, kani::proof)]
+#[cfg_attr(kani, kani::stub(std::fmt::format, crate::verif_common::stub_format))]
+#[cfg_attr(kani, kani::stub(std::io::Error::is_interrupted, crate::verif_common::stub_not_interrupted))]
+#[cfg_attr(kani, kani::stub(crate::decode::xz::read_block_header, crate::decode::xz::verif_h::scripted_block_header))]
+#[cfg_attr(kani, kani::stub(crate::decode::lzma::DecoderState::new, crate::decode::stream::verif_h::new_scripted_lit))]
+#[cfg_attr(kani, kani::stub(crate::decode::lzbuffer::LzAccumBuffer::from_stream, crate::decode::lzbuffer::verif_h::accum_from_stream_with_capacity))]
+pub fn xzblk_read_block_empty_crc64() {
+    read_block_empty::<4>()
+}
